@@ -90,6 +90,21 @@ def strategy(tier):
     return _texts()
 
 
+FUZZ_RUNS = {"quick": 0, "thorough": 400000}   # per fuzz process (coverage-guided, atheris); see vf/core/fuzz_target.py
+FUZZ_MAX_LEN = 120
+_FUZZ_LINE = [" ", " ", " ", "\t", "a", "b", "c", "#", "!", "\n", "\n", "x y"]
+
+
+def fuzz_decode(fdp):
+    """bytes -> a text over the same line alphabet as the generated part (blanks, tabs, words, comment markers), any shape"""
+    comments = [["!", "#"], ["!"], ["#"]][fdp.ConsumeIntInRange(0, 2)]
+    n = fdp.remaining_bytes()
+    if n == 0:
+        return None
+    text = "".join(_FUZZ_LINE[b % len(_FUZZ_LINE)] for b in fdp.ConsumeBytes(n))
+    return {"text": text, "comments": comments}
+
+
 def plain(t):
     return {k: plain(v) for k, v in t.items()}
 
